@@ -117,11 +117,33 @@ def parse_full(tok):
     return p, [int(x) for x in v.split(",")]
 
 
+def parse_parts(txt):
+    """'3:+1:-1,2' -> [(3, []), (1, [-1, 2])]"""
+    parts = []
+    if txt in ("", "0"):     # the zero expression prints as 0
+        return parts
+    for t in txt.split("+"):
+        c, vs = t.split(":")
+        parts.append((int(c), [int(v) for v in vs.split(",")] if vs else []))
+    return parts
+
+
+def eval_parts(parts, get, M):
+    tot = 0
+    for c, vs in parts:
+        x = c
+        for v in vs:
+            x = (x * get(v)) % M
+        tot = (tot + x) % M
+    return tot
+
+
 def spec_check(w, prog, envs, outs):
     """independent oracle on the implementation's own outputs: value of each result equals the
     arithmetic on the operand values; every decomposition recomposes. Returns error string or None."""
     M = 1 << w
     regs = {i: [0] * len(envs) for i in range(8)}
+    exprs = {i: [] for i in range(8)}      # the implementation's own part lists, for substitution
     ops = [o for o in prog.split(";") if o]
     if len(ops) != len(outs):
         return "output count %d != op count %d" % (len(outs), len(ops))
@@ -147,6 +169,7 @@ def spec_check(w, prog, envs, outs):
                 if vals != want:
                     return "%s: value %s, arithmetic on operands gives %s" % (op, vals, want)
                 regs[int(f[1])] = vals
+                exprs[int(f[1])] = parse_parts(_)
             elif k == "half":
                 if out != "none":
                     _, vals = parse_full(out)
@@ -154,12 +177,19 @@ def spec_check(w, prog, envs, outs):
                     if [(2 * x) % M for x in vals] != want:
                         return "%s: twice the half %s is not the operand %s" % (op, vals, want)
                     regs[int(f[1])] = vals
+                    exprs[int(f[1])] = parse_parts(_)
             elif k == "sym":
                 if out != "none":
                     _, vals = parse_full(out)
-                    # value under the substituted environment cannot be recomputed without the
-                    # expression; the model comparison covers it structurally. record values.
+                    # substitution: the result's value under env j is the operand expression evaluated
+                    # with every substituted variable replaced by the value of its replacement
+                    sub = dict((int(kv.split("=")[0]), int(kv.split("=")[1])) for kv in (f[4].split(",") if len(f) > 4 and f[4] else []))
+                    src = exprs[int(f[2])]
+                    want = [eval_parts(src, (lambda v, j=j: regs[sub[v]][j] if v in sub else envv(j, v) % M), M) for j in range(len(envs))]
+                    if vals != want:
+                        return "%s: value %s, substitution into the operand gives %s" % (op, vals, want)
                     regs[int(f[1])] = vals
+                    exprs[int(f[1])] = parse_parts(_)
             elif k == "incof":
                 if out != "none":
                     _, vals = parse_full(out)
